@@ -29,10 +29,11 @@ const (
 	OpSelect
 	OpWait // environment wait (reader parked in Conn.Read)
 	OpWGWait
+	OpCond // harness thread waiting for a condition on the world
 )
 
 func (k OpKind) String() string {
-	return [...]string{"none", "yield", "lock", "rlock", "send", "recv", "select", "wait", "wgwait"}[k]
+	return [...]string{"none", "yield", "lock", "rlock", "send", "recv", "select", "wait", "wgwait", "cond"}[k]
 }
 
 type op struct {
@@ -40,6 +41,7 @@ type op struct {
 	obj   interface{}   // mutex pointer / channel / env object
 	chans []interface{} // select
 	name  string
+	cond  func() bool
 }
 
 type Thread struct {
@@ -286,6 +288,12 @@ func Yield(name string) {
 
 func (s *S) Yield(name string) { s.parkAs(s.cur(), op{kind: OpYield, name: name}) }
 
+// WaitUntil parks a harness thread until cond holds; cond is evaluated by the
+// scheduler while every thread is parked, so it may read the world freely.
+func (s *S) WaitUntil(name string, cond func() bool) {
+	s.parkAs(s.cur(), op{kind: OpCond, name: name, cond: cond})
+}
+
 // Wait parks the current thread until the environment has an alternative for obj.
 func (s *S) Wait(obj interface{}) {
 	s.parkAs(s.cur(), op{kind: OpWait, obj: obj})
@@ -527,6 +535,10 @@ func (s *S) enabled(t *Thread) (bool, []cand) {
 			}
 		}
 		return len(cs) > 0, cs
+	case OpCond:
+		if o.cond() {
+			return true, []cand{{t: t}}
+		}
 	case OpWait:
 		if s.Env != nil {
 			n := s.Env.Alternatives(o.obj)
@@ -610,6 +622,8 @@ func (o op) describe() string {
 		return fmt.Sprintf("%s(%s)", o.kind, reflect.TypeOf(o.obj))
 	case OpSelect:
 		return fmt.Sprintf("select(%d)", len(o.chans))
+	case OpCond:
+		return "cond(" + o.name + ")"
 	case OpWait:
 		return "wait(env)"
 	default:
